@@ -929,6 +929,55 @@ def r9(ctx, R):
                     R.ok("C03.R9", g.short, f"{unparse(c)[:50]} converted", loc(g, c), "table value converted to text before use")
 
 
+# ------------------------------------------------------------------ R10
+def r10(ctx, R):
+    """`q.extendleft(parts); x = q.pop()`: the pop takes what the statement before pushed.
+    str.split(sep) always yields at least one field, a comprehension with a filter may yield
+    none - then pop() raises IndexError on lines such as `;`, parse() fails and the file is
+    not indexed."""
+    R.rule("C03.R10", "a pop() that consumes what the statement before pushed: the pushed iterable is never empty", floor=1, confirmed=1)
+    idx = indexing_funcs(ctx)
+    n = 0
+    for q in sorted(idx):
+        f = ctx.m.funcs[q]
+        if f.rel.endswith("debug.py"):
+            continue
+        F = None
+        for blk in (x for x in ast.walk(f.node) if isinstance(getattr(x, "body", None), list)):
+            for fld in ("body", "orelse", "finalbody"):
+                sts = getattr(blk, fld, None)
+                if not isinstance(sts, list):
+                    continue
+                for prev, st in zip(sts, sts[1:]):
+                    pops = [c for c in calls_in(st) if isinstance(c.func, ast.Attribute) and c.func.attr in ("pop", "popleft") and not c.args and ctx.m.enclosing_stmt(c) is st]
+                    if not pops or not (isinstance(prev, ast.Expr) and isinstance(prev.value, ast.Call) and isinstance(prev.value.func, ast.Attribute)):
+                        continue
+                    push = prev.value
+                    for c in pops:
+                        if unparse(c.func.value) != unparse(push.func.value) or push.func.attr not in ("extend", "extendleft", "append", "appendleft") or not push.args:
+                            continue
+                        n += 1
+                        k = key(f, st)[:80]
+                        a = push.args[0]
+                        F = F or ctx.facts(f, interproc=False)
+                        facts = F.at(c) or set()
+                        recv = unparse(c.func.value)
+                        if push.func.attr in ("append", "appendleft"):
+                            R.ok("C03.R10", f.short, k, loc(f, c), "one element pushed just before")
+                        elif ("nonempty", recv) in facts or ("truthy", recv) in facts:
+                            R.ok("C03.R10", f.short, k, loc(f, c), "container known to be non-empty")
+                        elif isinstance(a, ast.Call) and isinstance(a.func, ast.Attribute) and a.func.attr in ("split", "rsplit") and a.args:
+                            R.ok("C03.R10", f.short, k, loc(f, c), "str.split(sep) yields at least one field")
+                        elif isinstance(a, (ast.List, ast.Tuple)) and a.elts and not any(isinstance(e, ast.Starred) for e in a.elts):
+                            R.ok("C03.R10", f.short, k, loc(f, c), "non-empty display pushed")
+                        elif isinstance(a, (ast.GeneratorExp, ast.ListComp)) and any(g_.ifs for g_ in a.generators) or (isinstance(a, ast.Call) and isinstance(a.func, ast.Name) and a.func.id == "filter"):
+                            R.violation("C03.R10", f.short, k, loc(f, c), f"`{unparse(push)[:70]}` may push nothing (every element filtered out), and `{unparse(c)}` then raises IndexError: a line that consists of separators only (`;`) makes parse() fail and the file is not indexed")
+                        else:
+                            R.undecided("C03.R10", f.short, k, loc(f, c), f"non-emptiness of `{unparse(a)[:50]}` not derived")
+    if n == 0:
+        R.undecided("C03.R10", "indexing code", "push/pop pairs", ("fortls/parsers/internal/parser.py", 1), "no pop() directly after a push found")
+
+
 def run(ctx, R):
     r1(ctx, R)
     r2(ctx, R)
@@ -939,3 +988,4 @@ def run(ctx, R):
     r7(ctx, R)
     r8(ctx, R)
     r9(ctx, R)
+    r10(ctx, R)
